@@ -356,9 +356,31 @@ NUMPY_PROXY = NumpyProxy()
 RANDOM_PROXY = NUMPY_PROXY.random
 
 
+def _check_random_state_proxy(seed):
+    """Stands for ``sklearn.utils.check_random_state`` inside mlinsights
+    modules: ``None`` means numpy's global generator, which the simulator
+    owns (adversarial mode) or has seeded (pinned mode)."""
+    from sklearn.utils import check_random_state as real
+
+    c = _active()
+    if c is None or seed is not None:
+        return real(seed)
+    c.seam_calls["check_random_state(None)"] += 1
+    if c.entropy.mode == "adversarial":
+        if c.entropy.sim_global is None:
+            c.entropy.sim_global = SimRandomState(c, "global")
+        return c.entropy.sim_global
+    return real(None)
+
+
+_check_random_state_proxy.__dsim_proxy__ = True
+
+
 def install_proxies():
     """Replaces numpy / numpy.random / sampler references in the globals of
     every loaded (pure python) mlinsights module."""
+    from sklearn.utils import check_random_state as _sk_crs
+
     samplers = {}
     for n in SAMPLERS:
         if hasattr(_real_random, n):
@@ -371,7 +393,10 @@ def install_proxies():
             continue
         g = mod.__dict__
         for k, v in list(g.items()):
-            if v is numpy:
+            if v is _sk_crs:
+                g[k] = _check_random_state_proxy
+                count += 1
+            elif v is numpy:
                 g[k] = NUMPY_PROXY
                 count += 1
             elif v is _real_random:
